@@ -208,6 +208,11 @@ func (w *fw) rel(typ, target string, external bool) string {
 	if external {
 		mode = ` TargetMode="External"`
 	}
+	if !external && !strings.HasPrefix(target, "../") && (typ == "image" || typ == "header" || typ == "footer" || typ == "theme" || typ == "oleObject" || typ == "comments") && w.r.Chance(1, 6) {
+		// the target spelt as an absolute part name: legal in OPC, written by several producers
+		target = "/word/" + target
+		w.feature("absolute-relationship-target:" + typ)
+	}
 	w.docRels = append(w.docRels, fmt.Sprintf(`<Relationship Id="%s" Type="%s%s" Target="%s"%s/>`, id, relT, typ, esc(target), mode))
 	return id
 }
@@ -610,11 +615,25 @@ func MakeForeign(r *rng.R, opts ForeignOpts) *Foreign {
 			sectRefs += `<` + w.el("headerReference") + w.at("type", "first") + ` r:id="` + hid + `"/>`
 		}
 	}
+	if sectRefs != "" && !strings.Contains(sectRefs, `"first"`) && r.Chance(1, 3) {
+		// the layout Word writes for a document with different odd and even pages: the part with the lower number belongs to the
+		// even pages (or the first page), the default header has the higher one - so a part name another producer (this library
+		// included) would pick for the default header is taken by another kind
+		kind := []string{"even", "first"}[r.Intn(2)]
+		name := []string{"header1.xml", "header1.xml", "headereven.xml", "headerfirst.xml"}[r.Intn(4)]
+		w.feature("second-header:" + kind + "-in-" + name)
+		f.put("word/"+name, hdr+`<w:hdr xmlns:w="`+nsW+`"><w:p><w:r><w:t>Foreign `+kind+` header</w:t></w:r></w:p></w:hdr>`)
+		ovr("word/"+name, "application/vnd.openxmlformats-officedocument.wordprocessingml.header+xml")
+		hid2 := w.rel("header", name, false)
+		sectRefs += `<` + w.el("headerReference") + w.at("type", kind) + ` r:id="` + hid2 + `"/>`
+	}
 	if r.Bool() && !opts.Simple {
 		w.feature("footer")
-		f.put("word/footer3.xml", hdr+`<w:ftr xmlns:w="`+nsW+`"><w:p><w:r><w:t>Foreign footer</w:t></w:r></w:p></w:ftr>`)
-		ovr("word/footer3.xml", "application/vnd.openxmlformats-officedocument.wordprocessingml.footer+xml")
-		fid := w.rel("footer", "footer3.xml", false)
+		fname := []string{"footer3.xml", "footer3.xml", "footer1.xml", "footereven.xml", "footerfirst.xml"}[r.Intn(5)] // also names another producer would give to another kind
+		w.feature("footer-part:" + fname)
+		f.put("word/"+fname, hdr+`<w:ftr xmlns:w="`+nsW+`"><w:p><w:r><w:t>Foreign footer</w:t></w:r></w:p></w:ftr>`)
+		ovr("word/"+fname, "application/vnd.openxmlformats-officedocument.wordprocessingml.footer+xml")
+		fid := w.rel("footer", fname, false)
 		sectRefs += `<` + w.el("footerReference") + w.at("type", []string{"default", "first", "even"}[r.Intn(3)]) + ` r:id="` + fid + `"/>`
 	}
 	// docProps
